@@ -165,11 +165,46 @@ BUILTIN = {"ASCII_ALPHA_LOWER": LOWER, "ASCII_ALPHA_UPPER": UPPER, "ASCII_ALPHAN
            "ASCII_NONZERO_DIGIT": frozenset("123456789"), "ASCII_ALPHA": LOWER | UPPER, "ANY": ALPHABET, "NEWLINE": frozenset("\n")}
 
 
-def from_pest(expr, rules, depth=0, ignore_neg=True):
-    """Regular over-approximation of a (non-recursive, atomic) pest expression: negative predicates are dropped."""
+def rule_language(name, rules):
+    """the strings a pair of rule `name` can span.  In a normal (non-atomic) rule pest skips WHITESPACE / COMMENT between the elements of a
+    sequence and between repetitions, so blanks and comments are part of the pair's text; atomic (`@`) and compound-atomic (`$`) rules do not."""
+    r = rules[name]
+    if r.get("ty") in ("atomic", "compound_atomic", "compound-atomic", "CompoundAtomic", "Atomic"):
+        return from_pest(r["expr"], rules)
+    skip = []
+    for w in ("WHITESPACE", "COMMENT"):
+        if w in rules:
+            try:
+                skip.append(from_pest(rules[w]["expr"], rules))
+            except ValueError:
+                skip.append(star(cls(chr(c) for c in range(32, 127))))
+    if not skip:
+        return from_pest(r["expr"], rules)
+    ws = star(alt(*skip) if len(skip) > 1 else skip[0])
+    return from_pest(r["expr"], rules, ws=ws)
+
+
+def from_pest(expr, rules, depth=0, ignore_neg=True, ws=None):
+    """Regular over-approximation of a (non-recursive) pest expression: negative predicates are dropped.  ws: the implicit skip language
+    inserted between sequence elements and repetitions of a non-atomic rule (nested rule references keep their own kind)."""
     if depth > 30:
         raise ValueError("recursive rule")
     k = expr["e"]
+    if ws is not None:
+        if k == "seq":
+            return seq(from_pest(expr["a"], rules, depth + 1, ws=ws), ws, from_pest(expr["b"], rules, depth + 1, ws=ws))
+        if k == "rep":
+            x = from_pest(expr["x"], rules, depth + 1, ws=ws)
+            return opt(seq(x, star(seq(ws, x))))
+        if k == "rep1":
+            x = from_pest(expr["x"], rules, depth + 1, ws=ws)
+            return seq(x, star(seq(ws, x)))
+        if k in ("choice", "opt"):
+            if k == "choice":
+                return alt(from_pest(expr["a"], rules, depth + 1, ws=ws), from_pest(expr["b"], rules, depth + 1, ws=ws))
+            return opt(from_pest(expr["x"], rules, depth + 1, ws=ws))
+        if k == "ident" and expr["v"] in rules and expr["v"] not in BUILTIN:
+            return rule_language(expr["v"], rules)
     if k == "str":
         return lit(expr["v"])
     if k == "range":
